@@ -109,6 +109,8 @@ pub enum End {
     Panic(String),
     Fuel,
     Spin,
+    /// More command lines were read than the script holds.
+    Flood,
     KeysExhausted,
     /// The source was rejected (diagnostic text).
     AsmError(String),
@@ -126,6 +128,7 @@ impl End {
             End::Panic(msg) => format!("panic({})", msg),
             End::Fuel => "fuel".into(),
             End::Spin => "spin".into(),
+            End::Flood => "command-flood".into(),
             End::KeysExhausted => "keys-exhausted".into(),
             End::AsmError(_) => "asm-error".into(),
             End::Hang => "hang".into(),
@@ -222,6 +225,7 @@ fn classify(payload: Box<dyn std::any::Any + Send>) -> End {
             SimStop::OutOfFuel => End::Fuel,
             SimStop::Spin => End::Spin,
             SimStop::KeysExhausted => End::KeysExhausted,
+            SimStop::CommandFlood => End::Flood,
         };
     }
     let msg = PANIC_MESSAGE
